@@ -1751,7 +1751,48 @@ class Session:
             return ("exc", type(o[1]).__name__) if o[0] == "exc" else ("ret", o[1])
 
         fault = rec.get("fault")
+        if fault and fault.get("first"):
+            # the fault hits the FIRST execution (no fault-free reference run before it, which would
+            # already have filled every lazily initialised table): crash index from the size of the
+            # previous compilation of this session, then the user's retry, then the same compilation
+            # once more after exo's module-level memo tables were emptied - the clean-state answer
+            from .state import restore_module_globals
+
+            n_est = max(200, int(getattr(self, "last_compile_n", 6000)))
+            k = 1 + int(fault["u"] * n_est)
+            self.faults["F3_planned"] += 1
+            out2, _ = self.crash.run(comp, k=k, exc=make_crash_exc("interrupt" if fault["kind"] == "F3i" else "crash", f"first-compile@{k}"))
+            if self.crash.fired:
+                self.faults["compile_crash"] += 1
+            first_at = self.crash.fired_at
+            self.log.log("fault", f="first-compile-crash", k=k, fired=self.crash.fired, at=self.crash.fired_at)
+            try:
+                out3 = ("ret", comp())
+            except Exception as e:
+                out3 = ("exc", e)
+            restore_module_globals()
+            self.cache_seen = {}  # the analysis caches were emptied on purpose: their snapshots are void
+            out4, n4 = self.crash.run(comp)
+            self.last_compile_n = n4
+            if out4[0] == "exc" and not isinstance(out4[1], Exception):
+                raise out4[1]
+            self.log.log("compile", on=pid, o=out4[0], h=stable_hash(out4[1]) if out4[0] == "ret" else type(out4[1]).__name__)
+            st = self.ops.setdefault("compile", [0, 0])
+            st[0 if out4[0] == "ret" else 1] += 1
+            if sig(out3) != sig(out4) and not (sig(out3)[0] == "exc" and sig(out4)[0] == "exc"):
+                self.violate(
+                    "C07", "compile-after-fault-differs",
+                    f"after a first compilation interrupted at {first_at} the procedure compiles to {sig(out3)[0]}, "
+                    f"but to something else once exo's module-level tables are emptied: state left behind by the failed call",
+                    "compile", {"at": "first", "diff": classify_text_diff(out3[1], out4[1]) if (out3[0] == "ret" and out4[0] == "ret") else "outcome"},
+                )
+            else:
+                self.probes.hit("compile_first_fault_same")
+            if self.checks.get("pure"):
+                self.check_pure("after", "compile")
+            return
         ref, n = self.crash.run(comp)
+        self.last_compile_n = n
         if ref[0] == "exc" and not isinstance(ref[1], Exception):
             raise ref[1]
         self.log.log("compile", on=pid, o=ref[0], h=stable_hash(ref[1]) if ref[0] == "ret" else type(ref[1]).__name__)
@@ -1930,7 +1971,8 @@ def generate_and_run(seed: int, cfg: dict, log_keep=False) -> dict:
         if not forced_op and r_ops.random() < cfg.get("compile_rate", 0.0):
             rec = {"op": "compile", "on": pid, "out": None, "args": [], "kw": {}}
             if r_fault.random() < max(fault_rate, cfg.get("compile_fault_rate", 0.0)):
-                rec["fault"] = {"kind": r_fault.choice(["F3c", "F3i"]), "u": r_fault.random(), "strat": r_fault.random() < 0.5}
+                rec["fault"] = {"kind": r_fault.choice(["F3c", "F3i"]), "u": r_fault.random(), "strat": r_fault.random() < 0.5,
+                                "first": r_fault.random() < 0.4}
             data["ops"].append(rec)
             S.apply(rec)
             if S.viol and not cfg.get("survey"):
